@@ -341,6 +341,17 @@ def scan_panics(run, crate, prefix="A2"):
                            site=s, key="%s.indirect|%s" % (prefix, body.name))
                     continue
                 ok, why = discharge_call(run, body, s)
+                if not ok:
+                    # retry with private helpers looked through (an index computed by an extracted helper)
+                    from .common import look_through_private
+                    ib = look_through_private(crate, body)
+                    if ib is not body:
+                        for s2 in ib.calls():
+                            if cname(s2.node) == name and s2.span.get("s") == s.span.get("s"):
+                                ok2, why2 = discharge_call(run, ib, s2)
+                                if ok2:
+                                    ok, why = ok2, why2 + " (through an inlined private helper)"
+                                    break
                 run.ob("%s.panicky-call" % prefix, "%s: %s" % (body.name, name), ok, why, site=s,
                        key="%s.panicky-call|%s|%s|%s" % (prefix, body.name, name, "ok" if ok else norm(why)[:60]))
             elif n["k"] in ("tailcall",) or (n["k"] == "other"):
@@ -672,6 +683,13 @@ def _descent_witness(crate, body, cs, callee, comp):
                     term_s(strip(a))[:80], site.loc())
     # (b) reader descent
     reader_args = [(a, op) for a, op in zip(args, t["args"]) if "quick_xml::Reader<" in arg_ty(body, op).get("s", "")]
+    if reader_args and strip(reader_args[0][0])[0] == "agg" and strip(reader_args[0][0])[2] == "None":
+        return True, "passes no reader (None): the callee cannot descend further"
+    if not reader_args:
+        cb = crate.bodies.get(callee)
+        f = crate.fns.get(callee, {})
+        if cb is not None and not any("quick_xml::Reader<" in x.get("s", "") for x in f.get("inputs", [])) and any("BytesStart" in x.get("s", "") for x in f.get("inputs", [])):
+            return True, "the callee receives no reader: it can only hand None on (its own recursive calls are checked separately)"
     if reader_args:
         loop_calls = [s for s in body.calls() if method(s.node) in READER_METHODS]
         if loop_calls:
